@@ -59,7 +59,7 @@ Record dacc := mkD {
 
 Definition decl_step (fxp : bool) (a : dacc) (i : nat) (t : token) : dacc :=
   let st := d_state a in
-  let bang_ok := match st with SValue => true | SImportant => fxp (* [FIX 5] *) | SBang => false end in
+  let bang_ok := match st with SValue => true | SImportant | SBang => fxp (* [FIX 5] a bang in any state *) end in
   if bang_ok && is_literal t s_bang then mkD SBang i (d_cnw a) (d_csb a)              (* :120 *)
   else if (match st with SBang => true | _ => false end)
           && (match t with TIdent _ v => str_eqb (ascii_lower v) s_important | _ => false end)
